@@ -37,6 +37,10 @@ type Call struct {
 	B    Hex    `json:"b,omitempty"`
 	BNil bool   `json:"bnil,omitempty"`
 	BL   int    `json:"bl,omitempty"`
+	// the literal input is a sub-slice backing[BOff : BOff+len(B)] of a larger
+	// caller buffer with BPad spare bytes of capacity behind it
+	BOff int `json:"boff,omitempty"`
+	BPad int `json:"bpad,omitempty"`
 	U    uint32 `json:"u,omitempty"`
 	C    int    `json:"c,omitempty"`
 	// pseudo-operations
